@@ -191,6 +191,9 @@ package postgresql
 //@   safety
 //@   requires 4 <= len(packet.descriptionLengthBuf)
 //@   ensures header-matches-body: (packet.messageType[0] == 'Q' || (packet.messageType[0] == 'P' && called(NewParsePacket) && ret(NewParsePacket)[1] == nil)) ==> be32(packet.descriptionLengthBuf[0:4]) == uint32(buflen(packet.descriptionBuf) + 4)
+//@   at call Buffer.Write#1 : assert marshalled-copy-is-written: sameslice(arg[0], ret(ParsePacket.Marshal)[0]) && ret(NewParsePacket)[1] == nil
+//@   at call ParsePacket.Marshal : assert recv == ret(NewParsePacket)[0] && called(ParsePacket.ReplaceQuery)
+//@   at call ParsePacket.ReplaceQuery : assert recv == ret(NewParsePacket)[0] && arg[0] == newQuery
 //@   ensures simple-query-body: packet.messageType[0] == 'Q' ==> buflen(packet.descriptionBuf) == len(newQuery) + 1 && bufbyte(packet.descriptionBuf, len(newQuery)) == 0 && forall(i, 0, len(newQuery), bufbyte(packet.descriptionBuf, i) == newQuery[i])
 
 //@ func (packet *PacketHandler) SetParsePacket(parsePacket *ParsePacket) (err error)
